@@ -126,7 +126,7 @@ from units import INT_BITS
 
 def pair(i, j, **kw):
     """job ctx for an operation on Bvf<I,..> (self) with an operand over word type J"""
-    c = {"I": i, "J": j, "XJ": "" if i == j else "_" + j}
+    c = {"I": i, "J": j, "XJ": "" if i == j else "_" + j, "XD": "" if i == "u64" else "_u64"}
     c.update(kw)
     return c
 
@@ -234,7 +234,7 @@ GROUPS["bvf_arith_bvd"] = dict(name="bvf_arith_bvd", features="#![feature(alloca
 
 GROUPS["bvf_conv_bvd"] = dict(name="bvf_conv_bvd", features="#![feature(allocator_api)]",
     prelude=lambda ctx: BVF_PRELUDE + rhs_bvd_prelude(ctx),
-    items=lambda ctx: BVF_BASE + rhs_bvd_items(ctx) + [("stub", "bvd.len", {"X": "{XD}"})] + stub(BVF_CORE) + verify(["bvf.try_from_bvd"]))
+    items=lambda ctx: BVF_BASE + rhs_bvd_items(ctx) + [("stub", "bvd.len", {"X": "{XD}"})] + stub(BVF_CORE) + verify(["bvf.try_from_bvd", "bvf.try_from_bvd_owned"]))
 
 GROUPS["bvd_bitops"] = G("bvd_bitops", BVD_PRELUDE, BVD_BASE + stub(BVD_CORE) + verify(["bvd.binop_bvd"]))
 GROUPS["bvd_bitops"]["features"] = "#![feature(allocator_api)]"
@@ -246,6 +246,45 @@ ARITH_D = {
 BVD_VAL_PRELUDE = WORD_PRELUDE + ["conv_std.rs"] + VALUE_PRELUDE + ["bvd.rs", "bvd_val.rs"]
 GROUPS["bvd_arith"] = G("bvd_arith", BVD_VAL_PRELUDE + ["bvd_arith.rs"], BVD_BASE + stub(BVD_CORE) + verify(["bvd.addsub_bvd"]))
 GROUPS["bvd_arith"]["features"] = "#![feature(allocator_api)]"
+
+# ---- Bv (auto.rs): inline Bvf<u64,2> or heap Bvd; every callee is a stub with its verified contract (ctx: I=u64)
+BV_PRELUDE = WORD_PRELUDE + ["conv_std.rs", "bvf.rs", "bvd.rs", "iarray.rs", ("chunk.rs", {"J": "u64", "Y": ""}), "bv.rs"]
+BV_BASE = (BASE_DECLS + [("decl", "decl.Bvd"), ("decl", "decl.Bv128"), ("decl", "decl.Bvp"), ("decl", "decl.Bv")] + stub_int() + BIT_CONV_STUB +
+           [("decl", "bvf.consts"), ("decl", "bvd.consts")] + stub(BVF_CORE) + stub(BVD_CORE) +
+           [("stub", "bvd.from_bvf", {"J": "u64", "XJ": ""}), ("stub", "bvf.try_from_bvd", {"XD": ""})])
+BV_CORE = ["bv.reserve", "bv.shrink_to_fit", "bv.with_capacity", "bv.zeros", "bv.ones", "bv.capacity", "bv.len", "bv.get", "bv.set", "bv.push", "bv.pop", "bv.resize"]
+GROUPS["bv_core"] = G("bv_core", BV_PRELUDE, BV_BASE + stub(["bvd.resize", "bvd.ones"]) + verify(BV_CORE))
+GROUPS["bv_core"]["features"] = "#![feature(allocator_api)]"
+
+BV_MORE = ["bv.copy_range", "bv.shl_in", "bv.shr_in", "bv.rotl", "bv.rotr", "bv.leading_zeros", "bv.leading_ones", "bv.trailing_zeros", "bv.trailing_ones", "bv.is_zero", "bv.not"]
+BV_CALLEES = (["bvf.copy_range", "bvf.shl_in", "bvf.shr_in", "bvf.rotl", "bvf.rotr", "bvf.not"] + BVF_COUNT +
+              ["bvd.copy_range", "bvd.shl_in", "bvd.shr_in", "bvd.rotl", "bvd.rotr", "bvd.not", "bvd.is_zero"] + BVD_COUNT)
+GROUPS["bv_more"] = G("bv_more", BV_PRELUDE + ["rot.rs"], BV_BASE + [("stub", "bvf.try_from_bvd_owned", {"XD": ""})] + stub(BV_CALLEES) + verify(BV_MORE))
+GROUPS["bv_more"]["features"] = "#![feature(allocator_api)]"
+GROUPS["bv_shift"] = G("bv_shift", BV_PRELUDE, BV_BASE + stub(["bvf.shl_assign", "bvf.shr_assign", "bvd.shl_assign", "bvd.shr_assign"]) + verify(["bv.shl_assign", "bv.shr_assign"]))
+GROUPS["bv_shift"]["features"] = "#![feature(allocator_api)]"
+
+# Bv op= {&Bvf<J,N>, &Bvd, &Bv}: callees are the verified Bvf<u64,_>/Bvd compound assignments (stubs)
+def bv_ops_prelude(ctx):
+    val = "SGN" in ctx
+    p = WORD_PRELUDE + ["conv_std.rs"] + (VALUE_PRELUDE if val else []) + ["bvf.rs"] + (["bvf_val.rs"] if val else []) + ["bvd.rs"] + (["bvd_val.rs"] if val else [])
+    p += rhs_bvf_prelude(ctx)                      # operand Bvf<J,_> (only adds vocabulary when J != u64)
+    p += ["bv.rs"] + (["bv_val.rs"] if val else [])
+    return p
+def bv_ops_items(ctx):
+    val = "SGN" in ctx
+    it = BASE_DECLS + [("decl", "decl.Bvd"), ("decl", "decl.Bv128"), ("decl", "decl.Bvp"), ("decl", "decl.Bv")] + stub_int() + BIT_CONV_STUB + [("decl", "bvf.consts"), ("decl", "bvd.consts")]
+    it += int_impl_j(ctx)
+    if val:
+        it += stub(["bvf.addsub_bvf", "bvd.addsub_bvf", "bvf.addsub_bvd", "bvd.addsub_bvd"]) + verify(["bv.addsub_bvf", "bv.addsub_bvd"])
+        if ctx["J"] == "u64":
+            it += verify(["bv.addsub_bv"])
+    else:
+        it += stub(["bvf.binop_bvf", "bvd.binop_bvf", "bvf.binop_bvd", "bvd.binop_bvd"]) + verify(["bv.binop_bvf", "bv.binop_bvd"])
+        if ctx["J"] == "u64":
+            it += verify(["bv.binop_bv"])
+    return it
+GROUPS["bv_ops"] = dict(name="bv_ops", features="#![feature(allocator_api)]", prelude=bv_ops_prelude, items=bv_ops_items)
 
 def cmp_prelude(ctx):
     """self: Bvf<I,_>, other: Bvf<J,_>, both read in chunks of J"""
@@ -399,6 +438,24 @@ MIXED_ARITH_Q = [("bvf_arith_bvd", dctx(i, **ARITH[o])) for i in WQ for o in ("a
 MIXED_ARITH_T = [("bvf_arith_bvd", dctx(i, **ARITH[o])) for i in W4 for o in ("add", "sub")] + [("bvd_arith_bvf", pair("u64", j, **ARITH_D[o])) for j in W4 for o in ("add", "sub")]
 PROPS["C01"]["quick"] += MIXED_ARITH_Q
 PROPS["C01"]["thorough"] += MIXED_ARITH_T
+# ---- Bv (auto type): dispatch + inline/heap switching, every callee a verified stub
+BV_CORE_J, BV_MORE_J = [("bv_core", U64)], [("bv_more", U64)]
+def bv_shift_jobs(ts):
+    return [("bv_shift", {"I": "u64", "T": t}) for t in ts]
+def bv_ops_jobs(js, ops, table):
+    return [("bv_ops", pair("u64", j, **table[o])) for j in js for o in ops]
+for _p in ("C18", "C07", "C19"):
+    PROPS[_p]["quick"] += BV_CORE_J
+    PROPS[_p]["thorough"] += BV_CORE_J
+for _p in ("C05", "C06", "C08", "C16", "C04"):
+    PROPS[_p]["quick"] += BV_MORE_J
+    PROPS[_p]["thorough"] += BV_MORE_J
+PROPS["C05"]["quick"] += bv_shift_jobs(["u8", "u128"])
+PROPS["C05"]["thorough"] += bv_shift_jobs(TYPES6)
+PROPS["C04"]["quick"] += bv_ops_jobs(WQ, ("and", "or", "xor"), BITOPS)
+PROPS["C04"]["thorough"] += bv_ops_jobs(W4, ("and", "or", "xor"), BITOPS)
+PROPS["C01"]["quick"] += bv_ops_jobs(WQ, ("add", "sub"), ARITH_D)
+PROPS["C01"]["thorough"] += bv_ops_jobs(W4, ("add", "sub"), ARITH_D)
 BVD_ARITH_JOBS = [("bvd_arith", dict(U64, **ARITH_D[o])) for o in ("add", "sub")]
 PROPS["C01"]["quick"] += BVD_ARITH_JOBS
 PROPS["C01"]["thorough"] += BVD_ARITH_JOBS
@@ -407,8 +464,9 @@ PROPS["C01"]["thorough"] += BVD_ARITH_JOBS
 _ARITH_Q = [("bvf_arith", pair(i, j, **ARITH[o])) for (i, j) in [("u64", "u64"), ("u8", "u64")] for o in ("add", "sub")]
 _BITOPS_Q = [("bvf_bitops", pair(i, j, **BITOPS[o])) for (i, j) in [("u64", "u64"), ("u64", "u8")] for o in ("and", "or", "xor")] + \
             [("bvd_bitops", dict(U64, **BITOPS[o])) for o in ("and", "or", "xor")]
-PROPS["C03"] = {"quick": _ARITH_Q + BVD_ARITH_JOBS + _BITOPS_Q, "thorough": PROPS["C01"]["thorough"] + PROPS["C04"]["thorough"]}
-PROPS["C20"] = {"quick": _ARITH_Q + BVD_ARITH_JOBS + _BITOPS_Q, "thorough": PROPS["C01"]["thorough"] + PROPS["C04"]["thorough"]}
+_BV_Q = BV_CORE_J + BV_MORE_J + bv_ops_jobs(["u64"], ("or",), BITOPS) + bv_ops_jobs(["u64"], ("add", "sub"), ARITH_D)
+PROPS["C03"] = {"quick": _ARITH_Q + BVD_ARITH_JOBS + _BITOPS_Q + _BV_Q, "thorough": PROPS["C01"]["thorough"] + PROPS["C04"]["thorough"]}
+PROPS["C20"] = {"quick": _ARITH_Q + BVD_ARITH_JOBS + _BITOPS_Q + bv_ops_jobs(["u64"], ("or",), BITOPS) + bv_ops_jobs(["u64"], ("add", "sub"), ARITH_D) + bv_shift_jobs(["u64"]), "thorough": PROPS["C01"]["thorough"] + PROPS["C04"]["thorough"]}
 PROPS["C02"] = {"quick": BVD_ARITH_JOBS[1:], "thorough": BVD_ARITH_JOBS}
 
 # -------------------------------------------------------------------------------------------------
@@ -426,8 +484,9 @@ MANIFEST_TEXT["C05"] = dict(
           "shl_in/shr_in, by-value/by-reference wrapper forms, u128/usize words. " + TRUST_NOTE),
 )
 
-COVER_BVF = "Covered so far: the Bvf<u8|u16|u32|u64, N> implementation (symbolic N) and the Bvd implementation (symbolic word count, spare capacity included), all lengths and values, dev and release expansions. "
-TODO_NOTE = "Not yet under contract (so a change there is NOT detected by this check yet): the Bv (auto) dispatch layer, u128/usize word types"
+COVER_BVF = ("Covered so far: the Bvf<u8|u16|u32|u64, N> implementation (symbolic N), the Bvd implementation (symbolic word count, spare capacity included) and the Bv (auto) layer on top of them "
+             "(dispatch on the inline Bvf<u64,2> / heap Bvd representation incl. the switching in reserve, shrink_to_fit, push, resize, copy_range; abstract view slen/sbit/scap), all lengths and values, dev and release expansions. ")
+TODO_NOTE = "Not yet under contract (so a change there is NOT detected by the proof stage yet): u128/usize word types, Bv::append/prepend"
 MANIFEST_TEXT["C05"]["note"] = (COVER_BVF + "Units: ShlAssign/ShrAssign<T> for all six T, shl_in, shr_in. " + TODO_NOTE + ", the by-value/by-reference wrapper forms. " + TRUST_NOTE)
 MANIFEST_TEXT["C06"] = dict(
     text=("Proof: the real bodies of Bvf::rotl / Bvf::rotr are verified against `bit t of result == bit (t+n-k) mod n (resp. (t+k) mod n) of self`, "
@@ -453,7 +512,7 @@ MANIFEST_TEXT["C18"] = dict(
     text=("Proof: Bvd::{with_capacity,reserve,shrink_to_fit,capacity,push,pop,resize,zeros,ones} are verified against contracts that keep every bit and the length, "
           "state the resulting word count exactly (capacity >= len + k after reserve; shrink_to_fit leaves exactly the words of a fresh vector), preserve wf (len <= capacity, "
           "spare words zero), and contain no reachable explicit panic (no capacity failure) under A-size."),
-    note="Covered so far: Bvd. Not yet under contract: Bv (inline/heap switching), append/prepend growth paths. " + TRUST_NOTE)
+    note="Covered: Bvd and Bv (Bv::reserve/shrink_to_fit/with_capacity/zeros/ones/push/pop/resize incl. the inline<->heap switch through the verified conversions Bvd<-Bvf and Bvf<-Bvd: bits and length unchanged, capacity >= len + k after reserve, after shrink_to_fit inline iff len <= 128 else exactly ceil(len/64) words). Not yet under contract: append/prepend/extend growth paths (second engine only). " + TRUST_NOTE)
 
 DYN_NOTE = (" Second engine on every run (never counted as proof): the executable form of the contract (kani/src, written from the property statement, "
             "u128 reference model) is run natively on the real crate with seeded random inputs over Bvf<u8,2|3>, Bvf<u16,2>, Bvf<u64,2>, Bvd (<= 2 words, spare capacity included) "
@@ -474,7 +533,7 @@ MANIFEST_TEXT["C03"] = dict(
           "property re-verifies the arithmetic and bitwise compound assignments (Bvf op= &Bvf for both chunking branches, Bvd op= &Bvd; value-level wrap-around contract for += and -=), the other families are "
           "re-verified under C04-C08, C16, C18. Exploration for the rest: random histories of up to 6 public operations (23 kinds, operands of other implementations) followed by a comparison of EVERY observer and of the "
           "next operation against a freshly built vector with the same bits." + DYN_NOTE),
-    note=("The induction covers only operations under contract (see functions_under_contract in the evidence of C01, C04-C09, C16, C18, C19); multiplication, division, conversions, Bv dispatch and mixed-implementation "
+    note=("The induction covers only operations under contract (see functions_under_contract in the evidence of C01, C04-C09, C16, C18, C19); multiplication, division, native-integer operands, append/prepend/insert "
           "operands are covered by the second engine only. " + TRUST_NOTE))
 MANIFEST_TEXT["C09"] = dict(
     text=("Proof: PartialEq::eq and PartialOrd::partial_cmp between Bvf<I2,N2> and Bvf<I1,N1> (any two word sizes; chunk-wise comparison through get_int from the most significant chunk) are verified against the VALUE-level contract "
@@ -496,9 +555,9 @@ dyn_only("C20", "every owned/borrowed/assign form of + - * / % & | ^ << >> ! and
 MANIFEST_TEXT["C01"] = dict(
     text=("Proof (add/sub): the real bodies of AddAssign/SubAssign<&Bvf<I2,N2>> for Bvf<I1,N1> (both the same-word-size branch and the re-chunking branch through get_int) are verified against the VALUE-level contract "
           "val(result) == (val(a) +/- val(b)) mod 2^len, len unchanged, storage beyond len zero, on top of verified contracts of the word primitives cadd/csub/wmul/mask and of the carry-chain/bridge lemmas (spec/prelude/value*.rs)." + DYN_NOTE),
-    note=(COVER_BVF.replace("and the Bvd implementation (symbolic word count, spare capacity included), ", "") + "Also verified: Bvd += / -= &Bvd (two-step overflowing_add/sub carry chain, symbolic word count, spare capacity), Bvf += / -= &Bvd and Bvd += / -= &Bvf (operand re-chunked through get_int). Not yet under contract: multiplication, Bv operands (dispatch), native right operands (covered only by the second engine). " + TRUST_NOTE))
+    note=(COVER_BVF.replace("and the Bvd implementation (symbolic word count, spare capacity included), ", "") + "Also verified: Bvd += / -= &Bvd (two-step overflowing_add/sub carry chain, symbolic word count, spare capacity), Bvf += / -= &Bvd and Bvd += / -= &Bvf (operand re-chunked through get_int). Bv += / -= &Bvf/&Bvd/&Bv (dispatch on both operands) are verified too. Not yet under contract: multiplication, native right operands, by-value forwarders (covered only by the second engine). " + TRUST_NOTE))
 MANIFEST_TEXT["C04"] = dict(
     text=("Proof: BitAnd/BitOr/BitXorAssign<&Bvf<I2,N2>> for Bvf<I1,N1> (both branches), the same three for Bvd with a &Bvd operand, Not for Bvf/&Bvf/Bvd are verified against the bit-by-bit contract with the right operand zero-extended and ignored beyond len; wf of the result is the 'no bit of b at index >= n influences later observations' clause." + DYN_NOTE),
-    note=(COVER_BVF + "Also verified: Bvf op= &Bvd and Bvd op= &Bvf (operand read in chunks of the left word type through get_int). Not yet under contract: &Bv/native right operands, Not for &Bvd, Bv dispatch (covered only by the second engine). " + TRUST_NOTE))
+    note=(COVER_BVF + "Also verified: Bvf op= &Bvd and Bvd op= &Bvf (operand read in chunks of the left word type through get_int). Bv op= &Bvf/&Bvd/&Bv and !Bv (dispatch) are verified too. Not yet under contract: native right operands, Not for &Bvd/&Bv, by-value forwarders (covered only by the second engine). " + TRUST_NOTE))
 for _p in ("C05", "C06", "C07", "C08", "C16", "C18", "C19"):
     MANIFEST_TEXT[_p]["text"] += DYN_NOTE
